@@ -125,6 +125,69 @@ static void script_vector(void)
     leak_audit();
 }
 
+/* a vector / string that grew large and is cut down to a fraction: shrinking is not a growth, so whatever the library does with the storage
+ * that became unused, a failing allocator must not cost the elements that stay */
+static void script_bigvector(void)
+{
+    cstl_vector_t v; size_t size = 0; int ab, k;
+    static const size_t sizes[] = { 300, 10, 70, 2, 130, 16, 0, 65, 1 };
+    xt_cons = xt_dest = 0;
+    cstl_vector_init_complex(&v, sizeof(long), v_cons, v_dest, NULL);
+    for (k = 0; k < 9 && !failed && !aborted_run; k++) {
+        size_t c0, s0;
+        if (k == 4) { step_begin("bigvector shrink_to_fit"); SHIM_CALL(ab, cstl_vector_shrink_to_fit(&v)); CHECK(!ab, "shrink aborted"); vec_check(&v, size, "after shrink_to_fit"); }
+        c0 = cstl_vector_capacity(&v); s0 = cstl_vector_size(&v);
+        step_begin("bigvector resize");
+        SHIM_CALL(ab, cstl_vector_resize(&v, sizes[k]));
+        if (ab == 1) {
+            CHECK(fault_in_step(), "resize(%zu) aborted without an allocation failure", sizes[k]);
+            CHECK(sizes[k] > c0, "resize(%zu) within the capacity %zu aborted: only a growth may abort", sizes[k], c0);
+            CHECK(cstl_vector_size(&v) == s0 && cstl_vector_capacity(&v) == c0, "at the abort the vector is not what it was before");
+            vec_check(&v, size, "at the abort");
+            tr("resize(%zu)->abort ", sizes[k]); aborted_run = 1; break;
+        }
+        CHECK(ab == 0, "resize(%zu) of a vector of %zu: %s", sizes[k], s0, ab == 2 ? shim_assert_msg : "did not return");
+        size = sizes[k];
+        vec_check(&v, size, "after resize");
+    }
+    step_begin("bigvector clear");
+    SHIM_CALL(ab, cstl_vector_clear(&v));
+    CHECK(!ab && xt_cons == xt_dest, "clear: %d constructed but %d destroyed", xt_cons, xt_dest);
+    leak_audit();
+}
+static void script_bigstring(void)
+{
+    cstl_string_t a, b; int ab, k; char ref[400] = { 0 }; size_t i;
+    static const char big[] = "0123456789abcdefghijklmnopqrstuvwxyzABCDEFGHIJKLMNOPQRSTUVWXYZ0123456789abcdefghijklmnopqrstuvwxyzABCDEFGHIJKLMNOPQRSTUVWXYZ0123456789abcdefghijklmnopqrstuvwxyzABCDEFGHIJKLMNOPQRSTUVWXYZ";
+    cstl_string_init(&a); cstl_string_init(&b);
+    for (k = 0; k < 7 && !failed && !aborted_run; k++) {
+        char before[400]; size_t bsz = cstl_string_size(&a), c0 = cstl_string_capacity(&a), want = 0; memcpy(before, ref, sizeof before);
+        step_begin("bigstring");
+        switch (k) {
+        case 0: SHIM_CALL(ab, cstl_string_set_str(&a, big)); if (!ab) strcpy(ref, big); want = strlen(big); break;
+        case 1: SHIM_CALL(ab, cstl_string_erase(&a, 5, 170)); if (!ab) memmove(ref + 5, ref + 175, strlen(ref + 175) + 1); break;
+        case 2: SHIM_CALL(ab, cstl_string_append_str(&a, "xy")); if (!ab) strcat(ref, "xy"); want = bsz + 2; break;
+        case 3: SHIM_CALL(ab, cstl_string_substr(&a, 2, 6, &b)); want = (size_t)-1; break;      /* the second string grows */
+        case 4: SHIM_CALL(ab, cstl_string_resize(&a, 3)); if (!ab) ref[3] = 0; break;
+        case 5: SHIM_CALL(ab, cstl_string_insert_ch(&a, 1, 90, 'q')); if (!ab) { memmove(ref + 91, ref + 1, strlen(ref + 1) + 1); for (i = 0; i < 90; i++) ref[1 + i] = 'q'; } want = bsz + 90; break;
+        default: SHIM_CALL(ab, cstl_string_resize(&a, 8)); if (!ab) ref[8] = 0; break;
+        }
+        if (ab == 1) {
+            CHECK(fault_in_step(), "step %d aborted without an allocation failure", k);
+            CHECK(want > c0, "step %d aborted although the result fits into the capacity %zu: only a growth may abort", k, c0);
+            CHECK(cstl_string_size(&a) == bsz && (bsz == 0 || memcmp(cstl_string_str(&a), before, bsz + 1) == 0), "at the abort the string is not what it was before");
+            tr("step%d->abort ", k); aborted_run = 1; break;
+        }
+        CHECK(ab == 0, "step %d: %s", k, ab == 2 ? shim_assert_msg : "did not return");
+        if (failed) break;
+        CHECK(cstl_string_size(&a) == strlen(ref) && strcmp(cstl_string_str(&a), ref) == 0, "string differs from the reference after step %d", k);
+        if (k >= 3 && !failed) { shim_blk *bb = shim_find(cstl_string_str(&b)); CHECK(cstl_string_size(&b) == 6 && bb != NULL && memcmp(cstl_string_str(&b), "2345xy" + 0, 0) == 0, "second string is damaged after step %d", k); }
+    }
+    step_begin("bigstring clear");
+    SHIM_CALL(ab, (cstl_string_clear(&a), cstl_string_clear(&b))); CHECK(!ab, "clear aborted");
+    leak_audit();
+}
+
 /* =============================== strings =============================== */
 #define STRING_SCRIPT(NAME, ST, PFX, CH, LIT, XLEN, XCMP) \
 static void NAME(void) \
@@ -310,7 +373,7 @@ static void script_array(void)
 /* =============================== driver =============================== */
 static struct { const char *name; void (*run)(void); int triples; } scripts[] = {
     { "map", script_map, 1 }, { "vector", script_vector, 1 }, { "string", script_string, 1 }, { "wstring", script_wstring, 1 },
-    { "hash", script_hash, 1 }, { "memory", script_memory, 1 }, { "array", script_array, 1 },
+    { "hash", script_hash, 1 }, { "memory", script_memory, 1 }, { "array", script_array, 1 }, { "bigvector", script_bigvector, 1 }, { "bigstring", script_bigstring, 1 },
 };
 #define NSCRIPTS ((int)(sizeof scripts / sizeof scripts[0]))
 
